@@ -761,6 +761,7 @@ func (v *FnVC) unop(fr *frame, st *State, x *ssa.UnOp) Val {
 		v.childInvariants(fr, st, x, res, reach)
 		if g, isG := x.X.(*ssa.Global); isG {
 			v.assumeConstStringSet(g, res, st, reach)
+			v.assumeBigIntGlobal(g, res, reach)
 		}
 		return res
 	case token.NOT:
@@ -1049,6 +1050,26 @@ func (v *FnVC) assumeConstStringSet(g *ssa.Global, m Val, st *State, guard Term)
 	q := fmt.Sprintf("(forall ((csk String)) (! (= (select %s csk) %s) :pattern ((select %s csk))))", dom.S, body, dom.S)
 	v.sc.Assert(Implies(guard, And(Not(Eq(ms.T, tZero)), Term{q, SBool})))
 	v.note("package-level table " + g.Name() + " is only written by its initialiser (checked on the SSA): its keys are the literal's")
+}
+
+// assumeBigIntGlobal: p was just loaded from a package-level *big.Int that init sets to big.NewInt(c) and nothing else
+// writes (World.BigIntGlobals): it is not nil and denotes c.
+func (v *FnVC) assumeBigIntGlobal(g *ssa.Global, p Val, guard Term) {
+	c, ok := v.w.BigIntGlobals()[g]
+	if !ok {
+		return
+	}
+	ps, ok := p.(Sc)
+	if !ok {
+		return
+	}
+	lit := c
+	if strings.HasPrefix(c, "-") {
+		lit = "(- " + c[1:] + ")"
+	}
+	fn := v.sc.DeclareFun("spec#bigval#0", []Sort{SInt}, SInt)
+	v.sc.Assert(Implies(guard, And(Not(Eq(ps.T, tZero)), Eq(app(SInt, fn, ps.T), Term{lit, SInt}))))
+	v.note("package-level number " + g.Name() + " is only written by its initialiser big.NewInt(" + c + ") (checked on the SSA)")
 }
 
 // deferRunsAtEveryExit: the defer statement sits outside every loop in a block that dominates every exit of the
